@@ -37,21 +37,21 @@ def site_index(cell, sl, n_cells, n_sl):
 def tiling_edges(n_cells, vectors, positions, bc, order, tol=1e-5):
     V = np.asarray(vectors, dtype=float)
     S = sites(n_cells, V, positions)
+    r = np.array([x[3] for x in S])
+    N = len(S)
     cutoff = order * max(np.linalg.norm(V, axis=1)) + tol
     span = order + 1
     shifts = list(itertools.product(*[range(-span, span + 1) if b else [0] for b in bc]))
-    disps = [(np.asarray(s, dtype=float) * np.asarray(n_cells, dtype=float)) @ V for s in shifts]
     found = {}
-    for i, _, _, ri in S:
-        for j, _, _, rj in S:
-            if j < i:
-                continue
-            for s, dv in zip(shifts, disps):
-                if i == j and not any(s):
-                    continue
-                d = float(np.linalg.norm(rj + dv - ri))
-                if d <= cutoff:
-                    found.setdefault(round(d, 4), set()).add((i, j))
+    iu = np.triu(np.ones((N, N), dtype=bool))  # j >= i
+    for s in shifts:
+        dv = (np.asarray(s, dtype=float) * np.asarray(n_cells, dtype=float)) @ V
+        D = np.linalg.norm(r[None, :, :] + dv - r[:, None, :], axis=2)  # D[i, j] = |r_j + dv - r_i|
+        mask = (D <= cutoff) & iu
+        if not any(s):
+            mask &= ~np.eye(N, dtype=bool)
+        for i, j in zip(*np.nonzero(mask)):
+            found.setdefault(round(float(D[i, j]), 4), set()).add((int(i), int(j)))
     edges = []
     for k, d in enumerate(sorted(found)):
         if k >= order:
